@@ -218,7 +218,7 @@ def report(run, drv, coverage_extra=None, exhaustive=True):
         rule=getattr(drv, "RULE", ""),
         samples=run.samples[:6] if run.samples else
         [dict(case=c, outcome=o.get("outcome")) for c, o in (run.violations + run.errors)[:3]],
-        exhaustive=bool(exhaustive) and not run.errors,
+        exhaustive=bool(exhaustive) and not run.errors and "filtered_by" not in run.extra,
         outcomes_distinct=len(run.outcomes),
         outcome_histogram=dict(sorted(run.outcomes.items(), key=lambda kv: -kv[1])[:40]),
         skipped=run.skips,
@@ -270,6 +270,11 @@ def run_property(pid, tier, seed, jobs, replay=None):
     import shutil
     shutil.rmtree(os.path.join(REPLAYS, pid), ignore_errors=True)   # replays of this run only
     cases = list(drv.cases(tier, seed))
+    flt = os.environ.get("VERIF_FILTER")     # development aid only: "key=value,key=value" (evidence marks the run partial)
+    if flt:
+        kv = [p.split("=", 1) for p in flt.split(",")]
+        cases = [c for c in cases if all(str(c.get(k)) == v for k, v in kv)]
+        run.extra["filtered_by"] = flt
     chunk = max(1, min(64, len(cases) // (jobs * 8) or 1))
     chunks = [(pid, cases[i:i + chunk]) for i in range(0, len(cases), chunk)]
     try:
